@@ -6,11 +6,12 @@
    Encoders produce the list of pkt-lines they write (Model/PktLine.v turns it
    into bytes); decoders consume the successive results of pktline.Scanner.Scan
    (Model/PktLine.v scan_all).  Executable definitions only.
-   Outside the model: Unicode white space of bytes.TrimSpace, unicode.IsGraphic
-   beyond ASCII, fmt.Sscanf beyond single-space separated ASCII tokens (the
-   correspondence evaluates the model on ASCII inputs only). *)
+   bytes.TrimSpace and unicode.IsGraphic are modelled byte-wise over UTF-8
+   (Model/C35Utf8.v), so the model is evaluated on arbitrary bytes.  Outside the
+   model: fmt.Sscanf beyond single-space separated ASCII tokens (parse_cmd
+   answers "unmodelled" there). *)
 From Coq Require Import List NArith ZArith Bool String.
-From GoGit Require Import Base.Out Base.GoInt Gen.C34 Model.PktLine.
+From GoGit Require Import Base.Out Base.GoInt Gen.C34 Model.PktLine Model.C35Utf8.
 Import ListNotations.
 
 Definition B (s : string) : bytes := bytes_of_string s.
@@ -196,7 +197,7 @@ Definition cap_encode (l : caps) : bytes := join [SP] (cap_tokens l).
 
 (* DecodeList *)
 Definition cap_decode (raw : bytes) (l : caps) : caps :=
-  let raw := trim_space raw in
+  let raw := trim_space_u raw in
   match raw with
   | [] => l
   | _ =>
@@ -447,7 +448,7 @@ Definition rs_decode (s : src) : report + derr :=
     end
   end.
 
-(* ---------- ShallowUpdate ---------- *)
+(* ---------- ShallowUpdate (after "fix: … accept SHA-256 ids in a shallow-update") ---------- *)
 Record shupd := mkshupd { su_shallows : list hash; su_unshallows : list hash }.
 
 Definition su_encode (u : shupd) : list pkt :=
@@ -460,13 +461,13 @@ Fixpoint su_decode_go (items : list item) (fin : option perr) (u : shupd) : shup
   | it :: r =>
     if (fst it =? 0)%Z then inl u
     else
-      let line := trim_space (snd it) in
+      let line := trim_space_u (snd it) in
       if has_prefix (B "shallow ") line then
-        if Nat.eqb (List.length line) 48
+        if Nat.eqb (List.length line) 48 || Nat.eqb (List.length line) 72
         then su_decode_go r fin (mkshupd (su_shallows u ++ [new_hash (skipn 8 line)]) (su_unshallows u))
         else inr EOther
       else if has_prefix (B "unshallow ") line then
-        if Nat.eqb (List.length line) 50
+        if Nat.eqb (List.length line) 50 || Nat.eqb (List.length line) 74
         then su_decode_go r fin (mkshupd (su_shallows u) (su_unshallows u ++ [new_hash (skipn 10 line)]))
         else inr EOther
       else inr EOther
@@ -489,15 +490,17 @@ Fixpoint uh_decode_go (items : list item) (fin : option perr) (u : uphav) : upha
       let line := snd it in
       if has_prefix (B "done") line then inl (mkuphav (uh_haves u) true)
       else if negb (has_prefix (B "have ") line) then inr EOther
-      else uh_decode_go r fin (mkuphav (uh_haves u ++ [new_hash (trim_space (skipn 5 line))]) (uh_done u))
+      else uh_decode_go r fin (mkuphav (uh_haves u ++ [new_hash (trim_space_u (skipn 5 line))]) (uh_done u))
   end.
 Definition uh_decode (s : src) : uphav + derr := uh_decode_go (s_items s) (s_fin s) (mkuphav [] false).
 
-(* ---------- PushOptions (ASCII domain: IsGraphic = 0x20..0x7e) ---------- *)
+(* ---------- PushOptions ---------- *)
 Definition graphic_ascii (c : N) : bool := N.leb 32 c && N.leb c 126.
+(* !strings.ContainsFunc(opt, isNotGraphic): every rune (U+FFFD for an invalid byte) is graphic *)
+Definition graphic_str (o : bytes) : bool := negb (contains_rune (fun r => negb (is_graphic_rune r)) o).
 
 Definition po_encode (opts : list bytes) : option (list pkt) :=
-  if forallb (fun o => forallb graphic_ascii o && (zlen o <=? pktline_MaxPayloadSize)%Z) opts
+  if forallb (fun o => graphic_str o && (zlen o <=? pktline_MaxPayloadSize)%Z) opts
   then Some (map PData opts ++ [PFlush]) else None.
 
 Fixpoint po_decode_go (items : list item) (fin : option perr) (acc : list bytes) : list bytes + derr :=
@@ -505,7 +508,7 @@ Fixpoint po_decode_go (items : list item) (fin : option perr) (acc : list bytes)
   | [] => match fin with Some e => inr (EPkt e) | None => inr EUnexpectedEOF end
   | it :: r =>
     if (fst it =? 0)%Z then inl acc
-    else if forallb graphic_ascii (snd it) then po_decode_go r fin (acc ++ [snd it]) else inr EInvalidOption
+    else if graphic_str (snd it) then po_decode_go r fin (acc ++ [snd it]) else inr EInvalidOption
   end.
 Definition po_decode (s : src) : list bytes + derr := po_decode_go (s_items s) (s_fin s) [].
 
@@ -541,7 +544,7 @@ Fixpoint sr_decode_go (items : list item) (fin : option perr) (acc : list ack) :
           let h := new_hash (trim_eol (nth 1 parts [])) in
           match parts with
           | _ :: _ :: p2 :: _ =>
-            let st := trim_space p2 in
+            let st := trim_space_u p2 in
             let s := if beq st (B "continue") then 1%N else if beq st (B "common") then 2%N
                      else if beq st (B "ready") then 3%N else 0%N in
             sr_decode_go r fin (acc ++ [(h, s)])
@@ -672,10 +675,30 @@ Definition ul_read_hash (line : bytes) : option (hash * bytes) :=
 
 Definition ul_eof (fin : option perr) : derr := match fin with Some e => EPkt e | None => EUnexpected end.
 
+(* time.Unix(t, 0).IsZero() holds for exactly one t; a zero DeepenSince means "unset" *)
+Definition since_of (t : Z) : option Z := if (t =? -62135596800)%Z then None else Some t.
+
+(* decodeFilter (after "fix: … decode the filter line of an upload-request"):
+   line = "filter <spec>"; only a flush-pkt may follow *)
+Definition ul_filter_go (line : bytes) (items : list item) (fin : option perr) (u : ulreq) : ulreq + derr :=
+  let u' := mkulreq (ul_caps u) (ul_wants u) (ul_shallows u) (ul_deepen u) (ul_since u) (ul_not u) (skipn 7 line) in
+  match items with
+  | [] => inr (ul_eof fin)
+  | it :: _ =>
+    match ul_line it with
+    | None => inl u'
+    | Some [] => inl u'
+    | Some _ => inr EUnexpected
+    end
+  end.
+
 (* the deepen loop; rev = deepenRevList *)
 Fixpoint ul_deepen_go (line : bytes) (items : list item) (fin : option perr) (rev : bool) (u : ulreq) : ulreq + derr :=
   if negb (has_prefix (B "deepen") line) then
-    (match line with [] => inl u | _ => inr EUnexpected end)
+    (match line with
+     | [] => inl u
+     | _ => if has_prefix (B "filter ") line then ul_filter_go line items fin u else inr EUnexpected
+     end)
   else
     let step : option (ulreq * bool) + derr :=
       if has_prefix (B "deepen ") line then
@@ -691,7 +714,7 @@ Fixpoint ul_deepen_go (line : bytes) (items : list item) (fin : option perr) (re
         if (ul_deepen u >? 0)%Z then inr EOther
         else match parse_int (skipn 13 line) with
              | None => inr EOther
-             | Some t => inl (Some (mkulreq (ul_caps u) (ul_wants u) (ul_shallows u) (ul_deepen u) (Some t) (ul_not u) (ul_filter u), true))
+             | Some t => inl (Some (mkulreq (ul_caps u) (ul_wants u) (ul_shallows u) (ul_deepen u) (since_of t) (ul_not u) (ul_filter u), true))
              end
       else if has_prefix (B "deepen-not ") line then
         if (ul_deepen u >? 0)%Z then inr EOther
@@ -710,6 +733,7 @@ Fixpoint ul_deepen_go (line : bytes) (items : list item) (fin : option perr) (re
         | Some [] => inl u'
         | Some l' =>
           if (ul_deepen u' >? 0)%Z then
+            if has_prefix (B "filter ") l' then ul_filter_go l' r fin u' else
             (if has_prefix (B "deepen-since ") l' || has_prefix (B "deepen-not ") l' then inr EOther else inr EUnexpected)
           else if rev' && has_prefix (B "deepen") l' && negb (has_prefix (B "deepen-since ") l')
                   && negb (has_prefix (B "deepen-not ") l') then inr EOther
@@ -868,7 +892,8 @@ Definition c35_updreq (cp : list (string * list string)) (cmds : list (string * 
      (fun s => match ur_decode s with URok u => o_updreq u | URerr e => o_derr e | URunmodelled => OSym "unmodelled" end) chunks.
 Definition c35_ulreq (cp : list (string * list string)) (wants sh : list string) (deepen : Z) (since : option Z)
            (nots : list string) (filter : string) (chunks : list N) : out :=
-  match ul_encode (mkulreq (capsv cp) (map hx wants) (map hx sh) deepen since (map unhex nots) (unhex filter)) with
+  match ul_encode (mkulreq (capsv cp) (map hx wants) (map hx sh) deepen
+                           (match since with Some t => since_of t | None => None end) (map unhex nots) (unhex filter)) with
   | ULok ps => rt (Some ps) (fun s => o_res o_ulreq (ul_decode s)) chunks
   | ULempty => OList [OErr "empty_wants"]
   | ULexclusive => OList [OErr "exclusive"]
